@@ -97,7 +97,7 @@ class CheckC10(core.Check):
         for dh in DHS:
             for pat in ("XX", "NN", "KK", "NK", "K", "IK", "X1X1") if not quick else ("XX", "NN", "KK", "NK"):
                 for role in "ir":
-                    for what in ("s", "rs", "prologue", "psk"):
+                    for what in ("s", "rs", "prologue", "psk", "pskname"):
                         descs.append(("build", pat, dh, role, what, rnd.getrandbits(24)))
         return descs
 
@@ -159,6 +159,23 @@ class CheckC10(core.Check):
         elif what == "prologue":
             for ln in [0, 1, 31, 32, 33, 63, 64, 65, 127, 128, 129, 1000, 65535, 65536, 70000]:
                 one(prologue="gen:%d:pl" % ln if ln else "-")
+        elif what == "pskname":
+            # psk modifiers at every position (in range, just out of range, far out of range) and in combinations
+            mods = ["psk%d" % i for i in range(0, 13)] + ["psk255", "psk0+psk%d" % (parsed.nmsgs + 1), "psk%d+psk0" % (parsed.nmsgs + 1), "psk1+psk2+psk3+psk4+psk5", "fallback", "psk0+fallback"]
+            for m in mods:
+                nm = "Noise_%s%s_%s_ChaChaPoly_SHA256" % (pat, m, dh)
+                pid, qid = "P%d" % n, "Q%d" % n
+                n += 1
+                pk = {i: gen_bytes("p%d" % i, 32) for i in range(10)}
+                kk = dict(kw)
+                kk["psks"] = pk
+                pq = dict(peer_kw)
+                pq["psks"] = pk
+                c.party(pid, role, nm, rng="script:1", rec="-", **kk)
+                c.op("build", pid)
+                c.party(qid, "r" if role == "i" else "i", nm, rng="script:2", rec="-", **pq)
+                c.op("build", qid)
+                c.op("pingpong", a=pid if role == "i" else qid, b=qid if role == "i" else pid, max=6, plen=3, seed="pn")
         else:
             for loc in list(range(0, 20)) + [127, 128, 254, 255]:
                 k = dict(kw)
